@@ -36,13 +36,48 @@ def emptiness(c, x) -> Optional[bool]:
     return None
 
 
+def _alpha(t, mapping=None):
+    """loop ids renamed in order of first appearance: the same comprehension written twice compares equal"""
+    mapping = {} if mapping is None else mapping
+
+    def go(x):
+        if not isinstance(x, tuple):
+            return mapping.get(x, x) if isinstance(x, str) else x
+        if x and x[0] == "comp":
+            for lid, it, conds in x[3]:
+                mapping.setdefault(lid, f"B{len(mapping)}")
+        if x and x[0] == "elem":
+            mapping.setdefault(x[1], f"B{len(mapping)}")
+        return tuple(go(c) for c in x)
+
+    return go(t)
+
+
+def _respelled(c, x):
+    """`c` with every comprehension that is `x` up to its loop names replaced by `x`; `any(test for e in X)` read as
+    "the selection [.. for e in X if test] is not empty" when `x` is that selection"""
+    from .sym import subst, walk
+    if x[0] != "comp":
+        return c
+    ax = _alpha(x)
+    tw = {y: x for y in walk(c) if y[0] == "comp" and y != x and _alpha(y) == ax}
+    if len(x[3]) == 1 and len(x[3][0][2]) == 1:
+        lid0, it0, conds0 = x[3][0]
+        for y in walk(c):
+            if y[0] == "call" and y[1] == ("builtin", "any") and len(y[2]) == 1 and y[2][0][0] == "comp" and len(y[2][0][3]) == 1:
+                lid1, it1, conds1 = y[2][0][3][0]
+                if it1 == it0 and not conds1 and subst(y[2][0][2], {("elem", lid1): ("elem", lid0)}) == conds0[0]:
+                    tw[y] = x
+    return subst(c, tw) if tw else c
+
+
 def guarded_nonempty(live, x) -> bool:
     """Does the path condition establish that `x` is non-empty?"""
-    return any(emptiness(c, x) is False for c in conjuncts(live))
+    return any(emptiness(_respelled(c, x), x) is False for c in conjuncts(live))
 
 
 def guarded_empty(live, x) -> bool:
-    return any(emptiness(c, x) is True for c in conjuncts(live))
+    return any(emptiness(_respelled(c, x), x) is True for c in conjuncts(live))
 
 
 def existential(live, summ):
